@@ -178,7 +178,10 @@ fn draw_size(r: &mut Rng, classes: &[u8]) -> usize {
         1 => r.range(65, 1500) as usize,
         2 => r.range(4000, 8100) as usize,
         3 => r.range(8101, 20_000) as usize,
-        _ => r.range(40_000, 70_000) as usize,
+        4 => r.range(40_000, 70_000) as usize,
+        // megabytes: the kernel grows the file page by page during one write call, so a reader can
+        // map the file while it ends inside such an entry
+        _ => r.range(1_000_000, 3_000_000) as usize,
     }
 }
 
@@ -299,7 +302,7 @@ fn episode(ctx: &Ctx, case: u64, out: &mut Out, tsan: bool) -> EpisodeResult {
         conf.thr_dead = 0;
         conf.thr_small = *r.pick(&[0u64, 5000]);
     }
-    let size_classes: Vec<u8> = r.pick(&[vec![0u8, 0, 1], vec![0, 1, 3], vec![0, 2, 3, 3], vec![3, 3, 1], vec![0, 3, 4]]).clone();
+    let size_classes: Vec<u8> = r.pick(&[vec![0u8, 0, 1], vec![0, 1, 3], vec![0, 2, 3, 3], vec![3, 3, 1], vec![0, 3, 4], vec![0, 0, 5], vec![0, 5]]).clone();
     let segments = r.range(ctx.tier.pick(15, 30), ctx.tier.pick(60, 160));
     let ops_per_seg = r.range(4, 10);
     let keys: Vec<Vec<u8>> = (0..nkeys).map(|i| format!("key-{}", i).into_bytes()).collect();
